@@ -69,6 +69,7 @@ def random_exec(rng, nops, maxlen, alphabet):
         elif r < 0.80:
             pos = rng.randint(0, len(s)); t = rs(6)
             if rng.random() < 0.15 and 2 * len(s) < maxlen: L.append("printself %d %d" % (o, pos)); cur[o] = s[:pos] + s
+            elif rng.random() < 0.2: L.append("printnull %d %d %s" % (o, pos, hx(t))); cur[o] = s[:pos] + t + b"<NULL>|" + t
             elif rng.random() < 0.3: L.append("printpct %d %d %s" % (o, pos, hx(t))); cur[o] = s[:pos] + t + b"%" + t + b"|"
             else: L.append("printat %d %d %s" % (o, pos, hx(t))); cur[o] = s[:pos] + t
         elif r < 0.88:
